@@ -139,7 +139,7 @@ fn gen_layers(r: &mut Rng, d0: usize, tier: &str) -> Vec<Layer> {
         cur = w;
     }
     // heads over four or five classes now and then (deeper argmax trees: more pruning and forwarding inside one terminal)
-    if r.chance(1, 5) {
+    if r.chance(1, 3) {
         let w = 4 + r.below(2);
         layers.push(Layer::Linear(gen_linear(r, w, cur)));
         cur = w;
